@@ -389,6 +389,18 @@ func (x *Exec) execAssign(s *ast.AssignStmt, st *State) {
 			op = token.QUO
 		case token.REM_ASSIGN:
 			op = token.REM
+		case token.OR_ASSIGN:
+			op = token.OR
+		case token.AND_ASSIGN:
+			op = token.AND
+		case token.XOR_ASSIGN:
+			op = token.XOR
+		case token.SHL_ASSIGN:
+			op = token.SHL
+		case token.SHR_ASSIGN:
+			op = token.SHR
+		case token.AND_NOT_ASSIGN:
+			op = token.AND_NOT
 		default:
 			panic(unsupported("assignment operator " + s.Tok.String()))
 		}
